@@ -141,6 +141,19 @@ def a_positional(ctx):
               "after the named/default pass, `$<idx>` (idx = position in the declared parameter list) overrides the parameter of that position", line=fn.lineno)
     ctxupd = (any(isinstance(c, ast.Call) and src(c.func) == "flow_state.context.update" for c in ast.walk(loops[0])) or
               any(isinstance(a, ast.Assign) and isinstance(a.targets[0], ast.Subscript) and src(a.targets[0].value) == "flow_state.context" for a in ast.walk(loops[0]))) if ok else False
+    # return members are initialised AFTER the parameters were bound: a member that has the name of a parameter (`flow f $text -> $text`) must not overwrite it (F131)
+    rm = [l for l in fn.body if isinstance(l, ast.For) and "return_members" in src(l.iter)]
+    for l in rm:
+        mv = l.target.elts[1].id if isinstance(l.target, ast.Tuple) and len(l.target.elts) == 2 else src(l.target)
+        plain = [a for a in ast.walk(l) if isinstance(a, ast.Assign) and isinstance(a.targets[0], ast.Subscript) and src(a.targets[0].value) == "flow_state.context"] \
+            or [c for c in ast.walk(l) if isinstance(c, ast.Call) and src(c.func) == "flow_state.context.update"]
+        guarded = any(isinstance(i, ast.If) and any(isinstance(a_, ast.Compare) and isinstance(a_.ops[0], (ast.In, ast.NotIn)) and mv in src(a_.left)
+                                                    and ("arguments" in src(a_.comparators[0]) or "context" in src(a_.comparators[0])) for a_ in ast.walk(i.test)) for i in ast.walk(l)) \
+            or any(isinstance(c, ast.Call) and src(c.func) == "flow_state.context.setdefault" for c in ast.walk(l))
+        ctx.check("C08.a.binding", SM, "create_flow_instance", "return members do not overwrite parameters", guarded or not plain,
+                  "a return member with the name of a parameter keeps the bound value" if guarded or not plain else
+                  "the return members are written into the context after the parameters: with `flow normalize $text -> $text`, `await normalize $text=\"Hi\"` runs the flow with "
+                  "$text = None (FlowState.arguments and the FlowStarted event hold the right value, the variable the flow reads does not)", line=l.lineno)
     ctx.check("C08.a.binding", SM, "create_flow_instance", "parameters visible as locals", ctxupd, "bound parameters are copied into the instance's own context", line=fn.lineno)
 
 
